@@ -128,9 +128,18 @@ func Load(dir string, overlay map[string][]byte) (*Prog, error) {
 	if len(p.Roots) < MinRootPackages {
 		return nil, fmt.Errorf("only %d repository packages loaded, expected >= %d", len(p.Roots), MinRootPackages)
 	}
+	computeRenames(p.Roots, func(n ast.Node) bool {
+		return strings.HasSuffix(p.Fset.Position(n.Pos()).Filename, "_test.go")
+	})
+	computeLocalRenames(p.Roots, func(n ast.Node) bool {
+		return strings.HasSuffix(p.Fset.Position(n.Pos()).Filename, "_test.go")
+	})
+	indexIdentCanon(p.Roots)
 	for _, pk := range p.Roots {
 		p.indexPkg(pk)
 	}
+	theProg = p
+	pureDefMemo = map[types.Object]ast.Expr{}
 	return p, nil
 }
 
@@ -172,7 +181,7 @@ func (p *Prog) indexPkg(pk *packages.Package) {
 			if obj == nil {
 				continue
 			}
-			f := &Func{P: p, Pkg: pk, Obj: obj, Decl: fd, Body: fd.Body, Type: fd.Type, Name: Short(obj.FullName())}
+			f := &Func{P: p, Pkg: pk, Obj: obj, Decl: fd, Body: fd.Body, Type: fd.Type, Name: canonFunc(Short(obj.FullName()))}
 			p.funcs = append(p.funcs, f)
 			p.byObj[obj] = f
 			p.byName[f.Name] = f
@@ -337,7 +346,7 @@ func (p *Prog) Field(q string) *types.Var {
 		return nil
 	}
 	for j := 0; j < st.NumFields(); j++ {
-		if st.Field(j).Name() == q[i+1:] {
+		if st.Field(j).Name() == q[i+1:] || canonField(q[:i]+"."+st.Field(j).Name()) == q {
 			return st.Field(j)
 		}
 	}
@@ -356,5 +365,55 @@ func (p *Prog) Method(q string) *types.Func {
 	}
 	o, _, _ := types.LookupFieldOrMethod(types.NewPointer(n), true, n.Obj().Pkg(), q[i+1:])
 	f, _ := o.(*types.Func)
+	if f == nil {
+		for cur, pin := range funcRenames {
+			if strings.HasSuffix(pin, "."+q[i+1:]) && prefixOf(pin) == prefixOf(cur) {
+				o, _, _ := types.LookupFieldOrMethod(types.NewPointer(n), true, n.Obj().Pkg(), cur[strings.LastIndex(cur, ".")+1:])
+				if g, _ := o.(*types.Func); g != nil && canonFunc(Short(g.FullName())) == pin {
+					return g
+				}
+			}
+		}
+	}
 	return f
+}
+
+// EnclosingFuncAt returns the innermost source function whose body contains pos.
+func (p *Prog) EnclosingFuncAt(pos token.Pos) *Func {
+	var best *Func
+	for _, f := range p.funcs {
+		lo, hi := f.Pos(), f.Body.End()
+		if pos >= lo && pos <= hi {
+			if best == nil || (lo >= best.Pos() && hi <= best.Body.End()) {
+				best = f
+			}
+		}
+	}
+	return best
+}
+
+// FieldQName returns "dht/pkg.Type.field" for a field of a named struct type of the repository ("" otherwise).
+func (p *Prog) FieldQName(v *types.Var) string {
+	for _, pk := range p.Roots {
+		if pk.Types != v.Pkg() {
+			continue
+		}
+		sc := pk.Types.Scope()
+		for _, name := range sc.Names() {
+			tn, ok := sc.Lookup(name).(*types.TypeName)
+			if !ok {
+				continue
+			}
+			st, _ := tn.Type().Underlying().(*types.Struct)
+			if st == nil {
+				continue
+			}
+			for i := 0; i < st.NumFields(); i++ {
+				if st.Field(i) == v {
+					return Short(pk.PkgPath) + "." + tn.Name() + "." + v.Name()
+				}
+			}
+		}
+	}
+	return ""
 }
